@@ -123,7 +123,7 @@ HInst(q, r, j) ==
         \cup (IF F[o].ttl # e.ttl THEN {V({"C15"}, "output-ttl", o)} ELSE {})
         \cup (IF F[o].um # e.um THEN {V({"C15"}, "output-meta", o)} ELSE {})
         \cup (IF ~F[o].hash \/ ~F[o].cas THEN {V({"C15", "C10"}, "output-content-missing", o)} ELSE {})
-        \cup (IF F[o].c.k # e.k THEN {V({"C15"}, "output-content", o)} ELSE {})
+        \cup (IF F[o].c.k # e.k THEN {V({"C15", "C10", "C12"}, "output-content", o)} ELSE {})
         \cup (IF F[o].c.tid # -2 /\ F[o].c.tid # t THEN {V({"C15", "C14"}, "output-content-trigger", o)} ELSE {})
         \cup (IF t >= 1 /\ F[o].c.t # "-" /\ F[o].c.t # F[t].topic THEN {V({"C15", "C14"}, "output-content-topic", o)} ELSE {})
         \cup (IF t = -1 /\ ~Synth(F[o].c.t) THEN {V({"C14"}, "unknown-trigger", o)} ELSE {})
@@ -294,11 +294,11 @@ CCall(qe, q) ==
             FrameBad(o, x) ==
               (IF x <= napp THEN
                  (IF F[o].topic # k.cappends[x].topic THEN {V({"C19"}, "call-output-order", o)} ELSE {})
-                 \cup (IF F[o].c.k # k.cappends[x].k THEN {V({"C19"}, "call-output-content", o)} ELSE {})
+                 \cup (IF F[o].c.k # k.cappends[x].k THEN {V({"C19", "C10", "C12"}, "call-output-content", o)} ELSE {})
                ELSE IF x <= napp + nrecv THEN
                  (IF F[o].name # n \/ ("." \o F[o].suf) # sfx THEN {V({"C19"}, "call-output-order", o)} ELSE {})
                  \cup (IF F[o].ttl # k.cttl THEN {V({"C19"}, "call-output-ttl", o)} ELSE {})
-                 \cup (IF F[o].c.k # k.recv[x - napp] THEN {V({"C19"}, "call-output-content", o)} ELSE {})
+                 \cup (IF F[o].c.k # k.recv[x - napp] THEN {V({"C19", "C10", "C12"}, "call-output-content", o)} ELSE {})
                  \cup (IF F[o].name = n /\ ("." \o F[o].suf) = sfx /\ (~F[o].hash \/ ~F[o].cas)
                        THEN {V({"C19", "C10"}, "call-output-content-missing", o)} ELSE {})
                ELSE
